@@ -43,7 +43,7 @@ LIMITS = {'quick': dict(depths=(0, 1, 2), nrand=2500),
 SOURCES = [('dict', 3, 'pickle'), ('list', 4, 'pickle'), ('dict', 0, 'pickle'),
            ('list', 2, 'wu'), ('dict', 5, 'copy')]
 SOURCES3 = [('dict', 3, 'pickle'), ('list', 4, 'pickle'), ('list', 2, 'wu')]
-EXCLUDED = {'cycle', 'tile_shuffle', 'apply_lazy', 'catchfilter', 'mapguard', 'single', 'concat_aba', 'intersperse_aba'}
+EXCLUDED = {'cycle', 'tile_shuffle', 'apply_lazy', 'catchfilter', 'mapguard', 'single', 'concat_aba', 'intersperse_aba', 'catchprefetch'}
 FAULT_OPS = [('mapfail', (1,), 'filter'), ('mapfail', (0, 2), 'filter'),
              ('mapfail', (2,), 'value'), ('mapfail', (0,), 'value'),
              ('mapfail', (1, 3), 'filter')]
